@@ -147,7 +147,7 @@ CHECKS = {
         "units": [
             {"name": "c08-conc", "bin": "cmdglyph", "build": "inpkg:cmd/glyph", "run": "^TestC08Conc$", "quick": 1500, "thorough": 100000, "gomaxprocs": 8},
             {"name": "c08-race", "bin": "cmdglyph", "build": "inpkg:cmd/glyph", "run": "^TestC08Conc$", "race": True, "reports_as": "c08-conc", "quick": 400, "thorough": 30000, "gomaxprocs": 8},
-            {"name": "c08-storm", "bin": "cmdglyph", "build": "inpkg:cmd/glyph", "run": "^TestC08Storm$", "quick": 800, "thorough": 20000, "gomaxprocs": 8},
+            {"name": "c08-storm", "bin": "cmdglyph", "build": "inpkg:cmd/glyph", "run": "^TestC08Storm$", "quick": 500, "thorough": 20000, "gomaxprocs": 8},
         ],
     },
     "C09": {
